@@ -142,7 +142,7 @@ func planFor(c *Ctx, prop string) compPlan {
 	thorough := c.Tier == "thorough"
 	switch prop {
 	case "C01", "C10":
-		p.nAB, p.nRand, p.nLarge = int64(gen.ABCount(12)), 2500, 40
+		p.nAB, p.nRand, p.nLarge = int64(gen.ABCount(12)), 6000, 80
 		if thorough {
 			p.nAB, p.nRand, p.nLarge = int64(gen.ABCount(17)), 60000, 600
 		}
